@@ -38,7 +38,7 @@ def strlit(s):
 ALL_REASONS = ['NO_PATH', 'NO_PATH_WITH_CONSTRAINT', 'NO_FEASIBLE_BAUDRATE_WITH_SPACING', 'NO_COMPUTED_SNR',
                'NO_FEASIBLE_MODE', 'MODE_NOT_FEASIBLE', 'NO_SPECTRUM', 'NOT_ENOUGH_RESERVED_SPECTRUM']
 NOPATH = ALL_REASONS[:4]
-KEY_FIELDS = ['source', 'destination', 'tsp', 'tsp_mode', 'baud_rate', 'nodes_list', 'loose_list', 'spacing', 'power',
+KEY_FIELDS = ['source', 'destination', 'bidir', 'tsp', 'tsp_mode', 'baud_rate', 'nodes_list', 'loose_list', 'spacing', 'power',
               'nb_channel', 'f_min', 'f_max', 'format', 'OSNR', 'roll_off', 'tx_power']
 METRICS = ['SNR-bandwidth', 'SNR-0.1nm', 'OSNR-bandwidth', 'OSNR-0.1nm', 'lowest_SNR-0.1nm', 'biggest_SNR-0.1nm',
            'PDL_penalty', 'CD_penalty', 'PMD_penalty', 'reference_power', 'path_bandwidth']
@@ -199,7 +199,7 @@ def gen_batch(rng, topo, k):
                 te['path_bandwidth'] = rng.choice([100e9, 200e9, 150e9, 400e9])
             x = rng.random()
             if x < 0.25:
-                r['bidirectional'] = not r['bidirectional']        # not identical: see finding F14
+                r['bidirectional'] = not r['bidirectional']        # not identical: must not be aggregated (was F14)
             elif x < 0.35:
                 te['spacing'] = te['spacing'] + 12.5e9             # not identical: must not be aggregated
             reqs.append(r)
@@ -504,6 +504,104 @@ def csv_threshold_variants(rng, drv, k):
     return out
 
 
+# ------------------------------------------------------------------ aggregation alone (no network needed)
+class _Req:
+    """stand-in for PathRequest as requests_aggregation / compare_reqs see it (identity equality, plain attributes)"""
+
+
+def gen_agg_case(rng):
+    """2-8 requests drawn from a few templates (so that twins exist), 0-4 synchronisation groups; twins are often put
+    into groups of the same shape, sometimes of different shapes"""
+    ntpl = rng.randint(1, 3)
+    tpls = []
+    for k in range(ntpl):
+        mode = rng.choice(['mode 1', 'mode 1', 'mode 2', None])
+        tpls.append({'source': f'trx {rng.choice("AB")}', 'destination': f'trx {rng.choice("CD")}',
+                     'bidir': rng.random() < 0.3, 'tsp': 'Voyager', 'tsp_mode': mode,
+                     'baud_rate': None if mode is None else 32e9, 'nodes_list': [f'trx {rng.choice("CD")}'],
+                     'loose_list': ['STRICT'], 'spacing': rng.choice([50e9, 75e9]), 'power': rng.choice([1e-3, 2e-3]),
+                     'nb_channel': rng.choice([8, 40]), 'f_min': 191.3e12, 'f_max': 195.1e12, 'format': mode,
+                     'OSNR': None if mode is None else 12, 'roll_off': 0.15, 'tx_power': 1e-3})
+    n = rng.randint(2, 8)
+    reqs = []
+    for i in range(n):
+        t = dict(rng.choice(tpls))
+        x = rng.random()
+        if x < 0.1:
+            t['bidir'] = not t['bidir']
+        elif x < 0.15:
+            t['spacing'] += 12.5e9
+        k = rng.randint(1, 2)
+        t.update(id=f'r{i}', bw=rng.choice([100e9, 200e9, 37.5e9]),
+                 N=[rng.choice([None, 8 * rng.randint(-5, 5)]) for _ in range(k)],
+                 M=[rng.choice([None, 4, 8]) for _ in range(k)])
+        reqs.append(t)
+    ids = [r['id'] for r in reqs]
+    groups = []
+    for _ in range(rng.choice([0, 0, 1, 2, 3, 4])):
+        g = rng.sample(ids, min(len(ids), rng.choice([2, 2, 3])))
+        if rng.random() < 0.15:
+            g.append(g[0])                                   # an id repeated inside one group
+        groups.append(g)
+        if rng.random() < 0.5 and len(ids) > 2:
+            # a second group of the same shape for another request: [a, c] and [b, c]
+            other = rng.choice([i for i in ids if i not in g[:1]])
+            g2 = [other] + [x for x in g[1:] if x != other]
+            if len(set(g2)) >= 2:
+                groups.append(g2)
+    return {'kind': 'agg', 'requests': reqs, 'groups': groups}
+
+
+def drive_agg(case):
+    import gnpy.topology.request as rqm
+    rqs = []
+    for r in case['requests']:
+        o = _Req()
+        for f in KEY_FIELDS:
+            setattr(o, f, copy.deepcopy(r[f]))
+        o.request_id, o.path_bandwidth, o.N, o.M = r['id'], r['bw'], list(r['N']), list(r['M'])
+        rqs.append(o)
+    dsj = [rqm.Disjunction(disjunction_id=str(k), relaxable=False, link_diverse=True, node_diverse=True,
+                           disjunctions_req=list(g)) for k, g in enumerate(case['groups'])]
+    before = [rq_snapshot(r) for r in rqs]
+    dbefore = [list(d.disjunctions_req) for d in dsj]
+    try:
+        out, dout = rqm.requests_aggregation(rqs, dsj)
+    except Exception as e:
+        return {'in': before, 'din': dbefore, 'exc': type(e).__name__}
+    return {'in': before, 'din': dbefore, 'out': [rq_snapshot(r) for r in out],
+            'dout': [list(d.disjunctions_req) for d in dout]}
+
+
+def agg_oracle(ag):
+    """the aggregation clauses of the property on the implementation's own result"""
+    fails = []
+    ins = {r['id']: r for r in ag['in']}
+    seen = {}
+    for r in ag['out']:
+        members = r['id'].split(' | ')
+        for m in members:
+            seen[m] = seen.get(m, 0) + 1
+        if any(m not in ins for m in members):
+            fails.append(('unknown_id', f'{r["id"]}'))
+            continue
+        if not close(sum(ins[m]['bw'] for m in members), r['bw']):
+            fails.append(('bandwidth_not_summed', f'{r["id"]}: {r["bw"]}'))
+        if len(members) > 1:
+            if any({f: ins[m][f] for f in KEY_FIELDS} != {f: ins[members[0]][f] for f in KEY_FIELDS} for m in members):
+                diff = [f for f in KEY_FIELDS if any(ins[m][f] != ins[members[0]][f] for m in members)]
+                fails.append(('aggregated_differ_bidir' if diff == ['bidir'] else 'aggregated_not_identical',
+                              f'{r["id"]}: members differ in {diff}'))
+            if ins[members[0]]['tsp_mode'] is None:
+                fails.append(('aggregated_without_mode', r['id']))
+            if r['N'] != [x for m in members for x in ins[m]['N']] or r['M'] != [x for m in members for x in ins[m]['M']]:
+                fails.append(('slots_not_concatenated', f'{r["id"]}: N={r["N"]} M={r["M"]}'))
+    for i in ins:
+        if seen.get(i, 0) != 1:
+            fails.append(('id_not_once', f'request {i} appears {seen.get(i, 0)} times after aggregation'))
+    return fails
+
+
 # ------------------------------------------------------------------ Coq literals
 def qdec(x):
     """the decimal that repr() prints for a float (what the JSON document contains), as an exact Q literal"""
@@ -610,6 +708,8 @@ def eqp_prelude():
 def fld_lit(v):
     if v is None:
         return 'FNone'
+    if isinstance(v, bool):
+        return f'(FBool {"true" if v else "false"})'
     if isinstance(v, str):
         return f'(FStr {strlit(v)})'
     if isinstance(v, list):
@@ -901,11 +1001,9 @@ def slim(case):
     return {k: v for k, v in case.items() if not k.startswith('_')}
 
 
-def match_f14(v):
-    return v.get('key') == 'aggregated_differ_bidir'
-
-
-MATCHERS = {'F14_aggregation_ignores_bidir': match_f14}
+# F14 (compare_reqs ignored bidir) is fixed in /repo (098fa997); corpus/C19/f14_bidir_lost_in_aggregation.json is the
+# regression case, oracle key `aggregated_differ_bidir`.  No open known finding for C19.
+MATCHERS = {}
 
 
 def run(ctx):
@@ -932,6 +1030,24 @@ def run(ctx):
     def add(kind, term, *info):
         terms.append(term)
         meta.append((kind,) + info)
+    agg_cases = [c for c in cases if c.get('kind') == 'agg']
+    cases = [c for c in cases if c.get('kind') != 'agg']
+    if not ctx.replay:
+        agg_cases += [gen_agg_case(rng) for _ in range(ctx.scale(250, 5000))]
+    for c in agg_cases:
+        ag = drive_agg(c)
+        sc = slim(c)
+        ctx.count('aggregation_alone')
+        if 'exc' in ag:
+            ctx.violation('aggregation_exception', f'requests_aggregation raised {ag["exc"]}', sc)
+            continue
+        ctx.case(sc, len(ag['out']) < len(ag['in']))
+        ctx.count('aggregated_away', len(ag['in']) - len(ag['out']))
+        if c['groups']:
+            ctx.count('aggregation_with_groups')
+        for key, desc in agg_oracle(ag):
+            ctx.violation(key, desc, sc)
+        add('agg', agg_term(ag), sc, ag)
     for c in cases:
         drv = drive(c)
         sc = slim(c)
